@@ -221,7 +221,20 @@ ElemElement::startElement(StylesheetExecutionContext&       executionContext) co
                 namespaceLen == 0 &&
                 equals(prefix, DOMServices::s_XMLNamespace) == false)
             {
-                elemNameSpace = *theNamespace;
+                if (m_namespaceAVT == 0)
+                {
+                    elemNameSpace = *theNamespace;
+                }
+                else
+                {
+                    // An empty namespace attribute asks for no namespace,
+                    // so the element is generated without the prefix...
+                    elemName.erase(0, indexOfNSSep + 1);
+
+                    prefix.clear();
+
+                    havePrefix = false;
+                }
             }
         }
 
@@ -440,7 +453,20 @@ ElemElement::execute(StylesheetExecutionContext&        executionContext) const
                          namespaceLen == 0 &&
                          equals(prefix, DOMServices::s_XMLNamespace) == false)
                 {
-                    elemNameSpace = *theNamespace;
+                    if (m_namespaceAVT == 0)
+                    {
+                        elemNameSpace = *theNamespace;
+                    }
+                    else
+                    {
+                        // An empty namespace attribute asks for no namespace,
+                        // so the element is generated without the prefix...
+                        elemName.erase(0, indexOfNSSep + 1);
+
+                        prefix.clear();
+
+                        havePrefix = false;
+                    }
                 }
             }
         }
